@@ -242,6 +242,18 @@ fn exec_on(whole: &mut dyn Dut, split: &mut dyn Dut, ops: &[Op], st: &mut Stats)
     Ok(())
 }
 
+/// Level 2: the bus level with another device requesting in the same batches. TMA = TIMA =
+/// 0xFF at the 16-clock rate makes TIMA overflow every 16 clocks, so every LCD event that
+/// falls on a multiple of 16 clocks (LY becoming 144, every second line start, mode 0 of
+/// every fourth line) shares its catch-up batch with a timer request; the LCD's own requests
+/// must be what they are with the timer off (the requests are read from IF bits 0-1, the
+/// timer's bit 2 is left alone).
+fn arm_timer(m: &mut i::M) {
+    m.write(0xff06, 0xff);
+    m.write(0xff05, 0xff);
+    m.write(0xff07, 0x05);
+}
+
 struct Machines {
     b1: BusDut,
     b2: BusDut,
@@ -257,13 +269,16 @@ fn exec(ms: &mut Machines, c: &Case, rec: &mut Rec, counting: bool) -> CaseResul
         for m in [&mut ms.b1.m, &mut ms.b2.m] {
             m.reset_devices();
             m.write(0xff40, 0x91);
+            if c.level == 2 {
+                arm_timer(m);
+            }
         }
         let (b1, b2) = (&mut ms.b1, &mut ms.b2);
         guarded(|| exec_on(b1, b2, &c.ops, &mut st))
     };
     if counting {
         rec.eval(1);
-        rec.class(if c.level == 0 { "level-device" } else { "level-bus" }, 1);
+        rec.class(["level-device", "level-bus", "level-bus-timer-overflowing"][c.level.min(2) as usize], 1);
         let mut nt = false;
         for (name, on) in [("cross-143-144", st.cross_vblank), ("cross-153-0", st.cross_wrap), ("enabled-mode-entry", st.mode_entry), ("lyc-hit", st.lyc_hit), ("split-advance-with-event", st.split_event), ("register-write-without-cause-requests-nothing", st.write_without_cause)] {
             if on {
@@ -310,7 +325,7 @@ fn run(rec: &mut Rec) {
     let mut item = 0;
     for mask in 0..16u8 {
         for lyc in lycs {
-            for level in 0..2u8 {
+            for level in 0..3u8 {
                 item += 1;
                 if !rec.ctx.mine(item) || rec.too_many() {
                     continue;
@@ -332,6 +347,9 @@ fn run(rec: &mut Rec) {
                     for m in [&mut ms.b1.m, &mut ms.b2.m] {
                         m.reset_devices();
                         m.write(0xff40, 0x91);
+                        if level == 2 {
+                            arm_timer(m);
+                        }
                     }
                     let (b1, b2) = (&mut ms.b1, &mut ms.b2);
                     guarded(|| exec_on(b1, b2, &c.ops, &mut st))
@@ -344,10 +362,10 @@ fn run(rec: &mut Rec) {
             }
         }
     }
-    rec.exhaustive_part("16 STAT enable masks x 7 LYC values x 2 levels: every 4-clock slot of two frames plus the power-on vertical blank");
+    rec.exhaustive_part("16 STAT enable masks x 7 LYC values x 3 levels (device, bus, bus with TIMA overflowing every 16 clocks): every 4-clock slot of two frames plus the power-on vertical blank");
     // (b) generated histories
     let cases = rec.ctx.tier.pick(4000u32, 60_000);
-    for level in 0..2u8 {
+    for level in 0..3u8 {
         let strat = prop::collection::vec(op_strategy(), 1..12).prop_map(move |ops| Case { level, ops });
         let cell = std::cell::RefCell::new(&mut ms);
         run_generated(rec, &format!("hist{}", level), cases, strat, case_json, |c, rec, counting| {
